@@ -126,7 +126,7 @@ pub fn run(rep: &Report) {
     // alphabets
     let base = if quick { trees(2, 2) } else { trees(3, 3) };
     let names = crate::gen::name_alphabet();
-    let alpha: Vec<Value> = alphabet_trees(&base, &names).into_iter().filter(|u| u.get("cnf").is_none()).collect();
+    let alpha: Vec<Value> = alphabet_trees(&base, &names).into_iter().collect();
     run_structures(rep, "alphabet pass (general names): fixed strategies", &alpha, &fixed_strategies, &two, checks, false);
     let cnames = crate::gen::custom_name_alphabet();
     let calpha = alphabet_trees(&base, &cnames);
@@ -135,7 +135,9 @@ pub fn run(rep: &Report) {
     let nt = named_trees(3, 3, &pool);
     run_structures(rep, "name-prefix family: S(3,3) with member names drawn from {a, ab, abc, b} in every sibling-distinct way x all strategies", &nt, &all_strats, &two, checks, false);
     run_structures(rep, "wide containers: arrays / objects of 11, 100, 300 entries x 6 strategies", &wide_trees(), &wide_strategies, &c8, checks, false);
-    let ch = chains(if quick { 6 } else { 8 });
+    let nokey = |_: usize| vec![Cfg::CHEAP, Cfg { fmt: Fmt::Json, alg: Alg::HS256, decoys: true, hk: Hk::None }];
+    run_structures(rep, "cnf as an ordinary user claim (no holder key bound): 16 cnf values x 3 positions x 6 strategies", &cnf_user_trees(), &cnf_strategies, &nokey, checks, false);
+    let ch = chains(8);
     run_structures(rep, "depth chains", &ch, &few_strategies, &c8, checks, false);
     let ex = trees_with_extras(2, 2);
     run_structures(rep, "S(2,2) with iat and sub at the root (always-visible keys at varying positions)", &ex, &all_strats, &c8, checks, false);
